@@ -135,10 +135,15 @@ class HTTPFile(io.IOBase):
             stop = min((index+1)*self._chunk_size, self.length)
             self.cache[index] = self.download_range(start, stop)
         if len(self.cache) > self._keep_chunks:
-            for kk in self.cache.keys():
-                if kk != 0:  # always keep the first chunk
+            # never remove the chunk that is being requested
+            candidates = [kk for kk in self.cache.keys() if kk != index]
+            for kk in candidates:
+                if kk != 0:  # keep the first chunk if possible
                     self.cache.pop(kk)
                     break
+            else:
+                if candidates:
+                    self.cache.pop(candidates[0])
         return self.cache[index]
 
     def read(self, size=-1, /):
